@@ -33,6 +33,7 @@ type c08Config struct {
 	// Optional settings of cache.Config left out in some runs.
 	NoCallback  bool `json:"no_eviction_callback"`
 	DefaultSize bool `json:"default_size_function"`
+	SizeLast    bool `json:"with_size_called_after_on_evict"`
 }
 
 // forceDeep (experiments only, VERIF_C08_DEEP=1) makes every non-churn run a deep run.
@@ -186,8 +187,9 @@ func runC08(ch chooser.Chooser, st *Stats, mk cacheMaker) *Outcome {
 	// Configuration swarm: the optional settings of cache.Config are optional.
 	cfg.NoCallback = ch.Draw(5, "nocallback") == 4
 	cfg.DefaultSize = ch.Draw(3, "defaultsize") == 2
+	cfg.SizeLast = ch.Draw(2, "sizelast") == 1
 	env := &cacheEnv{limit: int64(cfg.Limit), sized: cfg.Sized, cbs: make([][]KV, 1), cur: func() int { return 0 }, uptime: cfg.Uptime,
-		noCallback: cfg.NoCallback, defaultSize: cfg.DefaultSize}
+		noCallback: cfg.NoCallback, defaultSize: cfg.DefaultSize, sizeLast: cfg.SizeLast}
 	var c cacheAPI
 	if p := safely(func() { c = mk(env) }); p != "" {
 		return &Outcome{Violation: &Violation{"panic", "constructing the cache panicked: " + p}}
